@@ -98,7 +98,8 @@ def run(names, checks, tier, seeds, jobs=4):
     def run_check(tree, ck, seed):
         env = dict(os.environ, VERIF_REPO=tree, VERIF_SEED=str(seed))
         t0 = time.time()
-        r = sh([PY, os.path.join(HERE, 'run_check.py'), ck, '--tier', tier], env=env, cwd=HERE, timeout=5400)
+        try: r = sh([PY, os.path.join(HERE, 'run_check.py'), ck, '--tier', tier], env=env, cwd=HERE, timeout=2400)
+        except subprocess.TimeoutExpired: return -1, ['<runner timeout>'], round(time.time() - t0, 1)
         mech = sorted(set(l.split('mechanism=')[1].split(' ')[0] for l in r.stdout.splitlines() if 'mechanism=' in l))
         return r.returncode, mech, round(time.time() - t0, 1)
     def clean_ok(wt, ck, seed):
